@@ -80,6 +80,9 @@ def replay(ctx: Ctx, recs: List[Dict[str, Any]]) -> None:
                 ctx.violation(f"autogreek:{greek}:raises", f"autogreek.{greek} raised {type(ex).__name__} for an accepted parameter combination", {**detail, "error": repr(ex)[:300]})
                 continue
             ctx.count(n=1)
+            if got.dtype != DT:
+                ctx.violation(f"autogreek:{greek}:dtype", f"autogreek.{greek} of float64 inputs is returned in {got.dtype} (the differentiation leaf was re-cast)", detail)
+                continue
             if got.shape != (n,) or not bool(((got - e).abs() <= 1e-11 * (1 + abs(e))).all()):
                 ctx.violation(f"autogreek:{greek}:{pr['xarg']}:{pr['yarg']}", f"autogreek.{greek} is not the derivative of the pricer's own price (pricer parameterised by {pr['xarg']}/{pr['yarg']}, caller gives {caller}/{rec['volcaller']})",
                               {**detail, "expected": e, "observed": got.flatten().tolist()[:3]})
